@@ -356,6 +356,68 @@ def parse_eval(ck, name, out, templates, judge_text):
     return ints(m.group(1)), dict(zip(vv[0::2], vv[1::2])), ints(h.group(1)), out
 
 
+# ---------------------------------------------------------------------------- the re-indexing tie (ProfRewrite.v)
+RW_HEADER = ("From Coq Require Import List NArith ZArith Bool Uint63.\nFrom Qryn Require Import model.Pprof model.ProfRewrite model.ProfCase "
+             "model.ProfRewriteCase.\nImport ListNotations.\n")
+RW_EMPTY = [0] * 14
+RW_CAP = 400
+
+
+def rw_err(m):
+    err = (m or {}).get("err", "") or ("panic: " + m["panic"] if (m or {}).get("panic") else "")
+    return (0 if err == "" else 1 if err.startswith("incompatible period types") else 2 if err.startswith("incompatible sample types") else 3)
+
+
+def rw_wire(c):
+    w = W()
+    w.z(c["id"])
+    w.u(len(c["rwin"]))
+    for flat in c["rwin"]:
+        for x in flat:
+            w.u(x)
+    w.z(rw_err(c.get("mp")))
+    for x in (c.get("rwout") or RW_EMPTY):
+        w.u(x)
+    return w.out
+
+
+def eval_rw(ck, name, cases):
+    """-> (mismatches {id: code}, spec results {id: code}, (payloads checked, payloads sane), cases judged stack by stack,
+    ids of cases with a payload that is not well formed, raw output)"""
+    txt = (RW_HEADER + wire_defs("r", [rw_wire(c) for c in cases]) +
+           "Definition RW := Eval vm_compute in rw_results %d rs.\n" % RW_CAP +
+           "Definition RD := Eval vm_compute in fst (fst (fst (fst (fst RW)))).\nPrint RD.\n"
+           "Definition RM := Eval vm_compute in snd (fst (fst (fst (fst RW)))).\nPrint RM.\n"
+           "Definition RV := Eval vm_compute in snd (fst (fst (fst RW))).\nPrint RV.\n"
+           "Definition RS := Eval vm_compute in snd (fst (fst RW)).\nPrint RS.\n"
+           "Definition RJ := Eval vm_compute in snd (fst RW).\nPrint RJ.\n"
+           "Definition RN := Eval vm_compute in snd RW.\nPrint RN.\n")
+    rc, out = ck.coq_eval(name, txt)
+    if rc != 0:
+        return None, None, None, None, None, out
+    flat = " ".join(out.split()).replace("%Z", "")
+    d = re.search(r"\bRD = (?:\[(.*?)\]|nil)\s*: list Z", flat)
+    m = re.search(r"\bRM = (?:\[(.*?)\]|nil)\s*: list \(Z \* Z\)", flat)
+    v = re.search(r"\bRV = (?:\[(.*?)\]|nil)\s*: list \(Z \* Z\)", flat)
+    sn = re.search(r"\bRS = \((\d+), (\d+)\)", flat)
+    j = re.search(r"\bRJ = (\d+)\s*: Z", flat)
+    nw = re.search(r"\bRN = (?:\[(.*?)\]|nil)\s*: list Z", flat)
+    if not d or not m or not v or not sn or not j or not nw:
+        return None, None, None, None, None, out
+    ints = lambda s: [int(x) for x in re.findall(r"-?\d+", s or "")]
+    if ints(d.group(1)):
+        return None, None, None, None, None, "rw cases at positions %s of %s did not decode (wire format / rd_rwcase out of step)" % (ints(d.group(1)), name)
+    mm, vv = ints(m.group(1)), ints(v.group(1))
+    return dict(zip(mm[0::2], mm[1::2])), dict(zip(vv[0::2], vv[1::2])), (int(sn.group(1)), int(sn.group(2))), int(j.group(1)), ints(nw.group(1)), out
+
+
+def rw_slim(c):
+    d = {k: c.get(k) for k in ("id", "kind", "class", "types", "sel", "rwpayloads")}
+    if c["kind"] != "rw":
+        d = slim(c)
+    return d
+
+
 def ingest_hypotheses(c):
     """the hypotheses of flamegraph_nests_from_ingest, evaluated on the INPUT of an e2e case (and on the stored rows for the
     joint parent determination): every profile stored, selected values >= 0, sum of value x depth < 2^63, one parent per node id
@@ -504,12 +566,63 @@ def slim(c):
     return d
 
 
+def run_rw(ck, cases, rwcases, rwres):
+    """the re-indexing of the payload merge: model = implementation on the whole merged message, specification oracle on the
+    observed message, hypotheses of the merge theorem on the payloads"""
+    mm, vv, sane, judged, notwf, out = rwres
+    if mm is None:
+        ck.obligation("payload merges evaluated inside Coq (coq/model/ProfRewriteCase.v)", False, out[-2000:])
+        return
+    byid = {c["id"]: c for c in rwcases}
+    nrw = sum(1 for c in rwcases if c["kind"] == "rw")
+    nmerged = sum(1 for c in rwcases if c.get("rwout") and rw_err(c.get("mp")) == 0)
+    nrefused = sum(1 for c in rwcases if rw_err(c.get("mp")) in (1, 2))
+    ck.extra["payload_merges"] = len(rwcases)
+    ck.extra["payload_merges_of_built_messages"] = nrw
+    ck.extra["payload_merges_answered"] = nmerged
+    ck.extra["payload_merges_refused_incompatible"] = nrefused
+    ck.extra["payload_merges_judged_stack_by_stack"] = judged
+    ck.extra["payload_merges_with_malformed_payload"] = len(notwf)
+    parts = ["strings", "sample/period types", "functions", "mappings", "locations", "samples", "header numbers"]
+    def what(code):
+        if code >= 2000:
+            return "error verdict differs (model says %d)" % (code - 2000)
+        return "differs in " + ", ".join(n for i, n in enumerate(parts) if (code - 1000) >> i & 1)
+    ck.obligation("correspondence: merge_payloads (sanitizeProfile, the five RewriteTableV2 tables, combineHeaders, Profile) = the whole message "
+                  "answered by ProfService.MergeProfiles -- string table, sample types, functions, mappings, locations, samples with labels, "
+                  "header numbers, or the refusal -- on %d payload merges (%d of writer-stored payloads, %d of built messages; %d answered, "
+                  "%d refused as incompatible)" % (len(rwcases), len(rwcases) - nrw, nrw, nmerged, nrefused),
+                  not mm and nrw > 0 and nmerged > 0 and nrefused > 0, "; ".join("case %d %s" % (i, what(k)) for i, k in sorted(mm.items())[:6]))
+    bad_e2e = [i for i in notwf if byid[i]["kind"] == "e2e"]
+    ck.obligation("every payload the writer stored is well formed (wf_raw_b: distinct non-zero ids, every reference resolves, one value per "
+                  "sample type) -- the hypothesis under which the merged profile is judged; %d built cases hold a malformed payload" % (len(notwf) - len(bad_e2e)),
+                  not bad_e2e and len(notwf) > len(bad_e2e), "cases %s" % bad_e2e[:10])
+    ck.obligation("hypothesis of payload_merge_is_sum evaluated: sanitizeProfile of every well-formed payload is sane (first string empty, ids "
+                  "1..n, references in range, one value per type): %d of %d payloads" % (sane[1], sane[0]), sane[0] > 0 and sane[0] == sane[1], "")
+    viol = sorted(i for i, k in vv.items() if k != 0)
+    ck.obligation("spec oracle on the OBSERVED merged profile (well-formed payloads): no panic, per-type totals = sums over the payloads, every resolved "
+                  "stack of functions carries the sum of its weights in the payloads (%d merges judged stack by stack)" % judged,
+                  not viol and judged > 0, "case ids %s" % [(i, vv[i]) for i in viol[:10]])
+    if viol:
+        worst = min((byid[i] for i in viol), key=lambda c: sum(len(x) for x in c["rwin"]))
+        ck.violation({"property": "C16", "kind": "the merged profile answered by MergeProfiles does not carry the weights of the payloads",
+                      "case": rw_slim(worst), "code": vv[worst["id"]], "error": (worst.get("mp") or {}).get("err"), "panic": (worst.get("mp") or {}).get("panic"),
+                      "explanation": "rw_spec (coq/model/ProfRewriteCase.v): 2 = panic / unknown error, 3 = per-type totals differ, 4 = a resolved stack carries "
+                      "another weight than in the payloads together",
+                      "replay": "write the case as one JSON line and run: proftree --cases <file> (rwpayloads = the protobuf messages, base64)"})
+    elif mm:
+        worst = min((byid[i] for i in mm), key=lambda c: sum(len(x) for x in c["rwin"]))
+        ck.violation({"property": "C16", "kind": "model of the payload merge and implementation disagree; the oracle still accepts the merged profile",
+                      "case": rw_slim(worst), "difference": what(mm[worst["id"]]), "broken": "correspondence ProfRewrite.v vs reader/service/profMerge_v1.go, profMerge_v2.go"},
+                     no_input=True)
+
+
 def run_corr(ck):
     if not ck.go_build("proftree"):
         ck.obligation("harness proftree builds against the repository", False, ck.build_out[-1500:])
         return
-    ok, out = ck.coq_make(["model/ProfCase.vo"])
-    if not ck.obligation("coq/model/ProfCase.v (case decoder and oracles) compiles", ok, out[-800:]):
+    ok, out = ck.coq_make(["model/ProfCase.vo", "model/ProfRewriteCase.vo"])
+    if not ck.obligation("coq/model/ProfCase.v, ProfRewriteCase.v (case decoders and oracles) compile", ok, out[-800:]):
         return
     n = int(os.environ.get("C16_N", "0")) or ck.n(250, 7500)  # C16_N: development only
     cases = []
@@ -532,7 +645,10 @@ def run_corr(ck):
         return
     cases += [json.loads(l) for l in open(outp)]
     hashes = [c for c in cases if c["kind"] == "hash"]
-    tcases = [c for c in cases if c["kind"] != "hash"]
+    tcases = [c for c in cases if c["kind"] in ("e2e", "rows")]
+    # the re-indexing tie: every case whose payloads went through MergeProfiles (kind e2e: the payloads the writer stored; kind rw:
+    # payloads built as protobuf messages)
+    rwcases = [c for c in cases if c["kind"] in ("e2e", "rw") and c.get("rwin") is not None and all(x is not None for x in c["rwin"])]
     byid = {c["id"]: c for c in tcases}
     mism, spec, hm = [], {}, []
     # the insert service: what the property is judged on is the block finally ACCEPTED by the (fake) ClickHouse client;
@@ -588,8 +704,10 @@ def run_corr(ck):
         shards.append(cur)
     # the shards are independent coqc runs: evaluate them side by side (results are parsed under a lock)
     with ThreadPoolExecutor(max_workers=4) as pool:
+        rwfut = pool.submit(eval_rw, ck, "C16_rw", rwcases)
         futs = [pool.submit(eval_cases, ck, "C16_cases_%d" % k, sh, hashes if k == 0 else [], templates, k == 0) for k, sh in enumerate(shards)]
         results = [f.result() for f in futs]
+        rwres = rwfut.result()
     for m, v, h, out in results:
         if m is None:
             ck.obligation("generated cases evaluated inside Coq", False, out[-2000:])
@@ -638,6 +756,7 @@ def run_corr(ck):
     ck.obligation("ProfService.MergeProfiles (pprof payload merge, profMerge_v2) ran on the stored payloads of %d cases without a panic "
                   "(%d merged profiles with samples; compared with merge_profiles inside Coq as part of the correspondence)" % (nmp, nmp_merged),
                   nmp > 0 and nmp_merged > 0 and not nmp_panic, "panic in cases %s: %s" % (nmp_panic[:10], [byid[i]["mp"]["panic"] for i in nmp_panic[:1]]))
+    run_rw(ck, cases, rwcases, rwres)
     ck.obligation("city16 (model of city.CH64 on 16 bytes) = implementation on %d buffers" % len(hashes), not hm, "ids %s" % hm[:10])
     ck.obligation("correspondence: post_process / merge_trie / bfs = implementation on %d cases" % len(tcases), not mism,
                   "mismatching case ids: %s" % mism[:10])
@@ -691,7 +810,7 @@ def run_corr(ck):
     hist, distinct = {}, set()
     for c in cases:
         hist[c["class"]] = hist.get(c["class"], 0) + 1
-        if c["kind"] == "hash":
+        if c["kind"] in ("hash", "rw"):
             continue
         nodes = sum(len(p["rows"] or []) for p in (c["profs"] or [])) if c["kind"] == "e2e" else len(c["mrows"] or [])
         if nodes >= 3 and len(c["levels"] or []) >= 3:
